@@ -809,6 +809,8 @@ def uneven(full=False):
             out.append(["columns", [[g, s, False], [w1, E4R, False]], 0, 1])
             out.append(["columns", [[w1, E4R, False], [g if boxad or x is E1 else "pack", s, False]], 2, 0])
             out.append(["columns", [[["weight", 3], s, False], [w1, E3R, False]], 1, None])
+            # no weight column: the Columns declares FIXED sizing and is also asked at the size () (pack columns sized ())
+            out.append(["columns", [[g if boxad or x is E1 else "pack", s, False], [["given", 3], E4R, False]], 1, 1])
             # the taller neighbour is not selectable: the short child is the nearest selectable for every cell
             out.append(["columns", [[["given", 2], T3, False], [w1, s, False]], 0, None])
             # the Columns is itself a child (rows shifted), the focus starts outside it
